@@ -132,9 +132,12 @@ enum Kind
   T_INVOKE_ID,
   T_MALLOC_FREE,
   T_YIELD,
+  T_SHARED_REG,
+  T_SHARED_UNREG,
   K_COUNT
 };
-static const char* kKind[] = { "create", "destroy", "ptr_roundtrip", "register", "unregister", "invoke_cb", "invoke_id", "malloc_free", "yield" };
+static const char* kKind[] = { "create", "destroy", "ptr_roundtrip", "register", "unregister", "invoke_cb", "invoke_id", "malloc_free", "yield",
+                               "shared_register", "shared_unregister" };
 
 // per-thread record of what callbacks saw
 struct CbSeen
@@ -159,10 +162,21 @@ static rlbox::tainted<long, Sbx> cbT(rlbox::rlbox_sandbox<Sbx>& sb, rlbox::taint
   return a.UNSAFE_unverified() % 1000;
 }
 
+// One sandbox object shared by all threads, used ONLY for callback registration / unregistration
+// (the one part of a sandbox object RLBox guards with its own mutex).
+using SharedSandbox = rlbox::rlbox_sandbox<SimSbx>;
+using SharedOwner = rlbox::sandbox_callback<void (*)(), SimSbx>;
+static SharedSandbox* g_shared = nullptr;
+template<int N>
+static void cbS(SharedSandbox&)
+{}
+static void (*const kSharedFns[3])(SharedSandbox&) = { &cbS<0>, &cbS<1>, &cbS<2> };
+
 struct ThreadResult
 {
   Ctx ctx;
   uint64_t ops = 0;
+  std::unique_ptr<SharedOwner> shared_own[3];
 };
 
 template<class Sbx>
@@ -382,6 +396,33 @@ static void thread_body(int tid, const std::vector<Op>& ops, ThreadResult& R)
       case T_YIELD:
         simsched::yield("explicit");
         break;
+      case T_SHARED_REG: {
+        if (!g_shared)
+          break;
+        int f = (int)((uint64_t)op.a[2] % 3);
+        if (R.shared_own[f])
+          break;
+        std::unique_ptr<SharedOwner> fresh;
+        Outcome o = attempt([&] { fresh = std::make_unique<SharedOwner>(g_shared->register_callback(kSharedFns[f])); });
+        c.probe("registration_on_shared_sandbox");
+        if (o == OK) {
+          int n = simsched::shared_add(f, +1);
+          R.shared_own[f] = std::move(fresh);
+          if (n > 1)
+            viol("two_live_owners_for_one_function@shared_register", "a registration was accepted while another thread holds a live registration of the same function");
+        }
+        break;
+      }
+      case T_SHARED_UNREG: {
+        int f = (int)((uint64_t)op.a[2] % 3);
+        if (!g_shared || !R.shared_own[f])
+          break;
+        simsched::shared_add(f, -1); // from here on another thread may legitimately be accepted
+        Outcome o = attempt([&] { R.shared_own[f].reset(); });
+        if (o != OK)
+          viol("unregister_fails@shared_unregister", g_last_abort_msg.c_str());
+        break;
+      }
     }
   }
   // teardown of this thread's objects
@@ -414,9 +455,10 @@ struct ThreadsWorld : World
     int nthreads = (int)r.range(2, thorough ? 8 : 5);
     int bias = (int)r.below(3);
     int mix = (int)r.below(3); // 0 all sim, 1 all noop, 2 alternate
-    p.cfg = { nthreads, bias, mix, (int64_t)(r.next() >> 2), (int64_t)r.below(2) };
+    int shared = r.chance(1, 3);
+    p.cfg = { nthreads, bias, mix, (int64_t)(r.next() >> 2), (int64_t)r.below(2), shared };
     int n = (int)r.range(6, thorough ? 60 : 36);
-    std::vector<unsigned> w = { 10, 6, 12, 6, 3, 10, 5, 4, 2 };
+    std::vector<unsigned> w = { 10, 6, 12, 6, 3, 10, 5, 4, 2, (unsigned)(shared ? 16 : 0), (unsigned)(shared ? 10 : 0) };
     // every thread starts by creating a sandbox
     for (int t = 0; t < nthreads; t++) {
       Op o;
@@ -462,6 +504,16 @@ struct ThreadsWorld : World
     for (int t = 0; t < nthreads; t++)
       R.push_back(std::make_unique<ThreadResult>());
     int tsan_before = g_tsan_reports.load();
+    bool shared = p.cfg.size() > 5 && p.cfg[5];
+    std::unique_ptr<SharedSandbox> shared_sb;
+    simsched::shared_reset();
+    if (shared) {
+      g_regions.clear();
+      g_next_inst_id = 900000;
+      shared_sb = std::make_unique<SharedSandbox>();
+      shared_sb->create_sandbox(0);
+      g_shared = shared_sb.get();
+    }
     simsched::init(sseed, nthreads, bias, 200000);
     g_yield = [](const char* w) { simsched::yield(w); };
     std::vector<std::thread> th;
@@ -488,6 +540,48 @@ struct ThreadsWorld : World
     for (auto& t : th)
       t.join();
     g_yield = nullptr;
+    if (shared) {
+      // quiescent: the functions reachable from the shared sandbox must be exactly those with a live owner
+      SimSbx* impl = shared_sb->get_sandbox_impl();
+      std::set<void*> in_table, owned;
+      for (auto& e : impl->table)
+        if (e.kind == 2)
+          in_table.insert(e.key);
+      int live_owners = 0;
+      bool entry_ok = true;
+      for (auto& r : R)
+        for (int f = 0; f < 3; f++)
+          if (r->shared_own[f] && !r->shared_own[f]->is_unregistered()) {
+            owned.insert((void*)kSharedFns[f]);
+            live_owners++;
+            // the owner's own entry point must still reach its function
+            auto idx = (size_t)r->shared_own[f]->UNSAFE_sandboxed(*shared_sb);
+            if (idx >= impl->table.size() || impl->table[idx].kind != 2 || impl->table[idx].key != (void*)kSharedFns[f])
+              entry_ok = false;
+          }
+      if (!entry_ok)
+        c.violate("C13", "live_owner_entry_point_does_not_reach_its_function@shared_sandbox", "the entry point held by a live owner is vacant or bound to another function");
+      c.probe("shared_sandbox_registrations_from_several_threads");
+      if (!c.stop && (in_table != owned || (int)owned.size() != live_owners))
+        c.violate("C13",
+                  "reachable_set_differs_from_live_owners@shared_sandbox",
+                  "%zu functions reachable from the shared sandbox, %d live owners of %zu distinct functions",
+                  in_table.size(),
+                  live_owners,
+                  owned.size());
+      Outcome o = attempt([&] {
+        for (auto& r : R)
+          for (auto& o : r->shared_own)
+            o.reset();
+      });
+      if (o != OK && !c.stop)
+        c.violate("C13", "release_of_owner_aborts@shared_sandbox", "%s", g_last_abort_msg.c_str());
+      attempt([&] { shared_sb->destroy_sandbox(); });
+      g_shared = nullptr;
+      shared_sb.reset();
+      graveyard_release();
+      g_regions.clear();
+    }
     pool_release();
     simsched::Result sr = simsched::result();
     c.ev("threads=%d bias=%d mix=%d decisions=%llu switches=%llu schedule=%016llx",
